@@ -1193,7 +1193,12 @@ func (x *Exec) unop(in *ssa.UnOp) {
 			return
 		}
 		l := x.locOf(in.X)
-		t := e.load(x.st, l)
+		var t string
+		if l.Idx == "ARRAY" && len(l.Path) == 0 {
+			t = fmt.Sprintf("(select %s %s)", e.heapGet(x.st, l.Key), l.Ref)
+		} else {
+			t = e.load(x.st, l)
+		}
 		s := e.sortOf(in.Type())
 		t = e.define(in.Name(), s, t)
 		for _, f := range e.typeFacts(t, in.Type(), x.brk(), 1) {
@@ -1222,6 +1227,9 @@ func (x *Exec) unop(in *ssa.UnOp) {
 func (x *Exec) pureApply(fn *ssa.Function, id string) {
 	e := x.enc
 	fc := e.cs.Funcs[shortName(fn)]
+	if fc == nil {
+		fc = e.cs.Funcs[fn.String()]
+	}
 	if fc == nil || fc.Opts["pure"] == "" || len(fn.FreeVars) > 0 {
 		return
 	}
@@ -1245,8 +1253,13 @@ func (x *Exec) pureApply(fn *ssa.Function, id string) {
 		if !ok || b.Op != "==" {
 			continue
 		}
-		if l, ok := b.L.(*SIdent); !ok || l.Name != "result" {
+		if l, ok := b.L.(*SIdent); !ok || (l.Name != "result" && !(len(fc.Results) == 1 && fc.Results[0] == l.Name)) {
 			continue
+		}
+		if len(fc.Params) == len(fn.Params) {
+			for i, pn := range fc.Params {
+				binders[pn] = binders[fn.Params[i].Name()]
+			}
 		}
 		env := &Env{x: x, st: x.st, old: x.st, binders: binders, bound: map[string]Val{}, closed: true}
 		x.noFacts = true
@@ -1287,7 +1300,7 @@ func (x *Exec) allocInstr(in *ssa.Alloc) {
 	if arr, ok := pt.Underlying().(*types.Array); ok {
 		key, es := e.memKeyFor(arr.Elem())
 		h := e.heapGet(x.st, key)
-		e.heapSet(x.st, key, fmt.Sprintf("(store %s %s ((as const (Array Int %s)) %s))", h, r, es, e.zeroSort(es, arr.Elem())))
+		e.heapSet(x.st, key, fmt.Sprintf("(store %s %s %s)", h, r, e.constArray(fmt.Sprintf("(Array Int %s)", es), es, arr.Elem())))
 		x.vals[in] = Val{T: r, Sort: "Int", GT: in.Type(), Loc: &Loc{Key: key, Ref: r, RootS: es, RootT: arr.Elem(), Idx: "ARRAY"}}
 		return
 	}
@@ -1347,10 +1360,14 @@ func (x *Exec) storeInstr(in *ssa.Store) {
 	}
 	x.nilCheck(in.Addr, "store", in.Pos())
 	l := x.locOf(in.Addr)
-	if l.Idx == "ARRAY" {
-		x.fail("whole-array store")
-	}
 	v := x.materialize(x.val(in.Val))
+	if l.Idx == "ARRAY" {
+		// whole-array assignment to a local array
+		h := e.heapGet(x.st, l.Key)
+		x.frameCheck(l.Key, l.Ref, in.Pos())
+		e.heapSet(x.st, l.Key, fmt.Sprintf("(store %s %s %s)", h, l.Ref, v.T))
+		return
+	}
 	x.frameCheck(l.Key, l.Ref, in.Pos())
 	e.store(x.st, l, v.T)
 }
@@ -1649,7 +1666,7 @@ func (x *Exec) makeSlice(in *ssa.MakeSlice) {
 	ln := x.val(in.Len)
 	x.safety("makeslice", fmt.Sprintf("(>= %s 0)", ln.T), "non-negative length", in.Pos())
 	h := e.heapGet(x.st, key)
-	e.heapSet(x.st, key, fmt.Sprintf("(store %s %s ((as const (Array Int %s)) %s))", h, r, es, e.zeroSort(es, st.Elem())))
+	e.heapSet(x.st, key, fmt.Sprintf("(store %s %s %s)", h, r, e.constArray(fmt.Sprintf("(Array Int %s)", es), es, st.Elem())))
 	x.setTerm(in, fmt.Sprintf("(mk-slice %s %s)", r, ln.T))
 }
 
@@ -1661,7 +1678,7 @@ func (x *Exec) makeMap(in *ssa.MakeMap) {
 	hd := e.heapGet(x.st, dom)
 	e.heapSet(x.st, dom, fmt.Sprintf("(store %s %s ((as const (Array %s Bool)) false))", hd, r, ks))
 	hv := e.heapGet(x.st, val)
-	e.heapSet(x.st, val, fmt.Sprintf("(store %s %s ((as const (Array %s %s)) %s))", hv, r, ks, vs, e.zeroSort(vs, mt.Elem())))
+	e.heapSet(x.st, val, fmt.Sprintf("(store %s %s %s)", hv, r, e.constArray(fmt.Sprintf("(Array %s %s)", ks, vs), vs, mt.Elem())))
 	x.vals[in] = Val{T: r, Sort: "Int", GT: in.Type()}
 }
 
@@ -1802,6 +1819,24 @@ func (x *Exec) lookupName(name string, at *ssa.BasicBlock, st *State, allowUndef
 	var best ssa.Value
 	bestIsAddr := false
 	bestDepth := -1
+	// rangeindexN: the hidden index of the range loop with ordinal N
+	if strings.HasPrefix(name, "rangeindex") && len(name) > len("rangeindex") {
+		var n int
+		if _, err := fmt.Sscanf(name[len("rangeindex"):], "%d", &n); err == nil {
+			for h, li := range x.loops {
+				if li.ordinal != n {
+					continue
+				}
+				for _, in := range h.Instrs {
+					if phi, ok := in.(*ssa.Phi); ok && phi.Comment == "rangeindex" {
+						if v, ok := x.vals[phi]; ok {
+							return v, true
+						}
+					}
+				}
+			}
+		}
+	}
 	consider := func(v ssa.Value, isAddr bool, b *ssa.BasicBlock, idx int) {
 		if _, ok := x.vals[v]; !ok {
 			if _, isC := v.(*ssa.Const); !isC {
